@@ -83,4 +83,10 @@ def imin (a b : Int) : Int := if b < a then b else a
 def andM (a : Bool) (b : M Bool) : M Bool := if a then b else pure false
 def orM (a : Bool) (b : M Bool) : M Bool := if a then pure true else b
 
+/-- `*_, last = xs`: the last element; python raises ValueError (not enough values to unpack) for an empty iterable -/
+def lastOf {α} (l : List α) : M α :=
+  match l.getLast? with
+  | some a => pure a
+  | .none => throw "ValueError"
+
 end Kingdon.Py
